@@ -226,3 +226,26 @@ Lemma tc_branches_client_cons D Sg g shadow pty bs seen l pay k r :
       TOk (BrCons l pay' k' r', seen')
     end.
 Proof. reflexivity. Qed.
+
+(* ---------- lookups after updates ---------- *)
+Lemma alookup_aremove {V} k y (g : list (string * V)) : alookup k (aremove y g) = if String.eqb k y then None else alookup k g.
+Proof.
+  induction g as [|[k' v] r IH]; cbn.
+  - now destruct (String.eqb k y).
+  - destruct (String.eqb_spec y k'); subst.
+    + rewrite IH. destruct (String.eqb_spec k k'); auto.
+    + cbn. destruct (String.eqb_spec k k'); subst.
+      * destruct (String.eqb_spec k' y); congruence.
+      * apply IH.
+Qed.
+Lemma alookup_aset {V} k y (v : V) g : alookup k (aset y v g) = if String.eqb k y then Some v else alookup k g.
+Proof. unfold aset. cbn. destruct (String.eqb_spec k y); auto. rewrite alookup_aremove. destruct (String.eqb_spec k y); congruence. Qed.
+
+
+Lemma aremove_idem {V} y (g : list (string * V)) : aremove y (aremove y g) = aremove y g.
+Proof.
+  induction g as [|[k v] r IH]; cbn; auto.
+  destruct (String.eqb y k) eqn:E; auto. cbn. rewrite E. now rewrite IH.
+Qed.
+Lemma aset_aset {V} y (v w : V) g : aset y v (aset y w g) = aset y v g.
+Proof. unfold aset. cbn. rewrite String.eqb_refl. now rewrite aremove_idem. Qed.
